@@ -94,6 +94,15 @@ def build_target(m, i, log):
         def bystander(self, *a):
             log.append("bystander")
             return "bystander"
+
+        # code of the target like any other: a refusal has no business running it
+        def __repr__(self):
+            log.append("__repr__")
+            return "<target>"
+
+        def __str__(self):
+            log.append("__str__")
+            return "target"
     body = {}
     init_value = None
     if kind == "imethod":
